@@ -191,6 +191,18 @@ def block_formula(stmts, env=None, depth=0):  # noqa: C901
         env2 = dict(env)
         env2[st.targets[0].id] = _subst(st.value, env)
         return block_formula(rest, env2, depth)
+    if isinstance(st, ast.For) and isinstance(st.target, ast.Name) and not st.orelse and len(st.body) == 1 and \
+            isinstance(st.body[0], ast.If) and not st.body[0].orelse and len(st.body[0].body) == 1 and \
+            isinstance(st.body[0].body[0], ast.Return) and st.body[0].body[0].value is not None and \
+            not isinstance(st.body[0].body[0].value, ast.Constant):
+        # `for x in XS: if C(x): return E(x)` - the answer is E of the FIRST x with C, not a quantification over all of XS
+        var = f'${depth}'
+        env2 = dict(env, **{st.target.id: var})
+        c = expr_formula(st.body[0].test, env2, depth + 1)
+        v = expr_formula(st.body[0].body[0].value, env2, depth + 1)
+        tail = block_formula(rest, env, depth)
+        it = _rename(st.iter, env)
+        return mk('or', [('first', it, c, v), mk('and', [('forall', it, neg(c)), tail])])
     if isinstance(st, ast.For) and isinstance(st.target, ast.Name) and not st.orelse:
         var = f'${depth}'
         env2 = dict(env, **{st.target.id: var})
